@@ -188,3 +188,93 @@ def same_wbranches(prog, an, rep, pid, f, callee_qnames):
                       'value', where, 'the build/approval gate and the '
                       'queue/merge calls receive different arguments: %s' %
                       {k: src(a) for k, (a, _) in names.items()})
+
+
+# ----------------------------------------------------------------- registry
+def _bind(params, call, skip_first=True):
+    ps = list(params)
+    if skip_first and ps and ps[0] in ('self', 'cls'):
+        ps = ps[1:]
+    out = {}
+    for p, a in zip(ps, call.args):
+        out[p] = a
+    for k in call.keywords:
+        if k.arg:
+            out[k.arg] = k.value
+    return out
+
+
+def _const_bool(node, default=False):
+    if node is None:
+        return default
+    if isinstance(node, ast.Constant):
+        return bool(node.value)
+    raise AnalysisError('fold-failure: registry flag %s is not a literal' %
+                        src(node))
+
+
+def reactor_registry(prog, an):
+    """Options and commands registered on the Reactor, read from the AST of
+    every non-test module: Reactor.add_option(...) calls, @Reactor.option and
+    @Reactor.command decorators.  Returns (options, commands): key ->
+    dict(privileged, authored, default, handler, where)."""
+    R = prog.cls('bert_e.reactor.Reactor')
+    add_option = R.methods['add_option']
+    add_command = R.methods['add_command']
+    option_dec = R.methods['option']
+    command_dec = R.methods['command']
+    options, commands = {}, {}
+
+    def is_reactor(expr, m, f=None):
+        q = prog.resolve_expr(m, expr, f)
+        return q == R.qname
+
+    for f in prog.all_funcs():
+        for call in prog.calls_in(f):
+            fn = call.func
+            if isinstance(fn, ast.Attribute) and \
+                    is_reactor(fn.value, f.module, f):
+                if fn.attr == 'add_option':
+                    b = _bind(add_option.params, call)
+                    key = const_value(b['key'])
+                    options[key] = {
+                        'privileged': _const_bool(b.get('privileged')),
+                        'authored': _const_bool(b.get('authored')),
+                        'default': b.get('default'),
+                        'handler': None, 'where': f.where(call),
+                        'registrar': f}
+                elif fn.attr == 'add_command':
+                    b = _bind(add_command.params, call)
+                    key = const_value(b['key'])
+                    commands[key] = {
+                        'privileged': _const_bool(b.get('privileged')),
+                        'authored': _const_bool(b.get('authored')),
+                        'handler': None, 'where': f.where(call)}
+    for f in prog.all_funcs():
+        if f.parent is not None or f.cls is not None:
+            continue
+        for dec in f.decorators:
+            target = dec.func if isinstance(dec, ast.Call) else dec
+            if not (isinstance(target, ast.Attribute) and
+                    is_reactor(target.value, f.module)):
+                continue
+            if target.attr == 'option':
+                b = _bind(option_dec.params, dec) \
+                    if isinstance(dec, ast.Call) else {}
+                key = const_value(b['key']) if b.get('key') is not None \
+                    else f.name
+                options[key] = {
+                    'privileged': _const_bool(b.get('privileged')),
+                    'authored': _const_bool(b.get('authored')),
+                    'default': b.get('default'), 'handler': f,
+                    'where': f.where(dec)}
+            elif target.attr == 'command':
+                b = _bind(command_dec.params, dec) \
+                    if isinstance(dec, ast.Call) else {}
+                key = const_value(b['key']) if b.get('key') is not None \
+                    else f.name
+                commands[key] = {
+                    'privileged': _const_bool(b.get('privileged')),
+                    'authored': False, 'handler': f,
+                    'where': f.where(dec)}
+    return options, commands
